@@ -587,6 +587,12 @@ def r11(ctx):
     ctx.check(bool(call_sites(bl, r"str>::len$|str::len$")) and not call_sites(bl, r"chars$|::count$"), "byte_length", "byte_length() is str::len (bytes)", bl.where(line=bl.line))
 
 
+def r12(ctx):
+    """'parsed ... into exactly the ... object values that were encoded': an event older than the open header's CTO must start a new
+    header; encoded as |time - CTO| it decodes to CTO + d instead of CTO - d. The guards of write_cto are rule C10.R4 (shared)."""
+    import c10
+    c10.r4(ctx)
+
 RULES = [
     ("C09.R1", "T6", "FixedSize codecs: read sequence = write sequence, widths sum to SIZE", r1),
     ("C09.R2", "T4", "Variation::lookup / to_group_and_var inverse; names equal numbers; VARIATION constants", r2),
@@ -598,4 +604,5 @@ RULES = [
     ("C09.R10", "T3", "back-patched counts / range stops are written after the data they announce", r10),
     ("C09.R11", "T11/T8", "index qualifier constants, attribute-list bias and file-object length fields agree between writer and parser", r11),
     ("C09.R9", "T6/T10", "device attribute values: writer and parser agree on width and signedness for every encoded length", r9),
+    ("C09.R12", "T2", "relative-time events are written as time - CTO only when representable (shared with C10.R4)", r12),
 ]
